@@ -622,3 +622,7 @@ def r3(run, g, gfile):
             run.ok("C01.R3", "grammar `%s` cannot spin (%d repeats, %d lists, all operands consume input)" % (name, g.count_nodes(t, "repeat"), g.count_nodes(t, "list")), gfile)
     run.floor("C01.R3", "grammar_roots", len(roots), 3)
     run.floor("C01.R3", "repeat_nodes", nrep, 9)
+
+
+run_flow = run
+FIXTURE_EXPECT = ["undischarged-panic/svgbob::to_svg_string_pretty/unwrap", "unbounded-loop/", "unbounded-iterator/", "recursion-without-variant/"]
